@@ -24,24 +24,24 @@ func specRolled(p, q PTS) bool {
 func specSentinel(p PTS) bool { return p == PtsNegativeInfinity || p == PtsPositiveInfinity }
 
 //@ func (p PTS) RolledOver(other PTS) bool
-//@   props C15
+//@   props C15 C05
 //@   ensures result == (!specSentinel(other) && specRolled(p, other))
 //@   modifies nothing
 
 //@ func (p PTS) After(other PTS) bool
-//@   props C15
+//@   props C15 C05
 //@   ensures other == PtsPositiveInfinity ==> !result
 //@   ensures other == PtsNegativeInfinity ==> result
 //@   ensures !specSentinel(other) ==> result == (specRolled(p, other) || (!(specRolled(other, p) && !specSentinel(p)) && p > other))
 //@   modifies nothing
 
 //@ func (p PTS) GreaterOrEqual(other PTS) bool
-//@   props C15
+//@   props C15 C05
 //@   ensures specFinite(p) && specFinite(other) ==> result == (p == other || specRolled(p, other) || (!specRolled(other, p) && p > other))
 //@   modifies nothing
 
 //@ func (p PTS) DurationFrom(from PTS) uint64
-//@   props C15
+//@   props C15 C05
 //@   ensures specFinite(p) && specFinite(from) && specRolled(p, from) ==> result == specTicks - uint64(from) + uint64(p)
 //@   ensures specFinite(p) && specFinite(from) && specRolled(from, p) ==> result == specTicks - uint64(p) + uint64(from)
 //@   ensures specFinite(p) && specFinite(from) && !specRolled(p, from) && !specRolled(from, p) && p < from ==> result == uint64(from) - uint64(p)
@@ -49,7 +49,7 @@ func specSentinel(p PTS) bool { return p == PtsNegativeInfinity || p == PtsPosit
 //@   modifies nothing
 
 //@ func (p PTS) Add(x PTS) PTS
-//@   props C15
+//@   props C15 C05
 //@   ensures uint64(result) == (uint64(p)+uint64(x)) % specTicks
 //@   modifies nothing
 
@@ -276,7 +276,7 @@ func specBE32(b []byte) uint32 {
 // 32 zero-bit steps: specZ32(register) == textbook CRC of the bytes consumed so far.
 
 //@ func ComputeCRC(input []byte) []byte
-//@   props C13
+//@   props C13 C05
 //@   ensures len(result) == 4 && fresh(result)
 //@   ensures specBE32(result) == specCRC(input, len(input))
 //@   modifies nothing
